@@ -837,12 +837,15 @@ def run(tier, seed, replay=None):
             res_ = []
             for toks, can, so in items:
                 cur = [t.replace(work, w) if t.startswith(work) else t for t in toks]
-                budget = 30
+                budget = 40
                 changed = True
                 while changed and budget > 0 and len(cur) > 2:
                     changed = False
-                    for i in range(1, len(cur)):
-                        cand = cur[:i] + cur[i + 1:]
+                    cands = [cur[:i] + cur[i + 1:] for i in range(1, len(cur))]
+                    cands += [cur[:i] + cur[i + 2:] for i in range(1, len(cur) - 1)]   # an option together with its argument
+                    for cand in cands:
+                        if len(cand) < 2:
+                            continue
                         budget -= 1
                         if decide(cand, w) == "allow":
                             rc2, so2, se2, can2 = real_run(cand, w)
